@@ -105,10 +105,12 @@ class TextTable:
 @dataclass
 class OtherCompu:
     """SCALE-LINEAR, TAB-INTP, RAT-FUNC, ...: emitted as XML only; `(other)` towards the model.
-    `scales` is a list of dicts with keys lower, upper (value, type) | None, num, den, inv"""
+    `scales` is a list of dicts with keys lower, upper (value | None, interval type | None) | None, num, den, inv,
+    const (a str is emitted as VT, a number as V); `default`: COMPU-DEFAULT-VALUE of COMPU-INTERNAL-TO-PHYS"""
     category: str
     scales: List[dict]
     inv_scales: Optional[List[dict]] = None     # COMPU-PHYS-TO-INTERNAL (RAT-FUNC inverse)
+    default: Any = None
     tag = "other"
 
 
